@@ -512,10 +512,17 @@ def encT (st : St) : Txn → T → Except Err (Txn × J)
           match lookup i st.temp with
           | some o => if o = .node cls id items then pure (txn, ref i) else throw .idTaken
           | none => throw .idTaken
-        else do
+        else
           -- `self.storage[o.identifier] = o` → `__setitem__` → nested `overwrite`
-          let (txn', kvs) ← encItems st cls txn items
-          pure (put i (.obj (hdr cls id ++ kvs), .node cls id items) txn', ref i)
+          match lookup i txn with
+          | some e =>
+              -- "nested Serializable that was already collected during this transaction"
+              if e.2 = .node cls id items then pure (txn, ref i) else throw .idTaken
+          | none => do
+              let (txn', kvs) ← encItems st cls txn items
+              -- "one of the nested Serializables uses the identifier of the Serializable that contains it"
+              if hasKey i txn' then throw .idTaken
+              pure (put i (.obj (hdr cls id ++ kvs), .node cls id items) txn', ref i)
 def encItems (st : St) (cls : Cls) : Txn → List Item → Except Err (Txn × List (String × J))
   | txn, [] => pure (txn, [])
   | txn, .data k j :: rest =>
@@ -551,6 +558,7 @@ def overwrite (st : St) (i : Id) (t : T) : Except Err (St × List (Id × J)) :=
   match t with
   | .node cls id items => do
       let (txn, kvs) ← encItems st cls [] items
+      if hasKey i txn then throw .idTaken   -- a nested template uses the identifier of the root
       let txn := put i (.obj (hdr cls id ++ kvs), .node cls id items) txn
       pure (commit st txn, txn.map (fun e => (e.1, e.2.1)))
 
@@ -560,6 +568,13 @@ def setitem (st : St) (i : Id) (t : T) : Except Err (St × List (Id × J)) :=
   else match lookup i st.temp with
     | some o => if o = t then pure (st, []) else throw .idTaken
     | none => if hasKey i st.backend then throw .idTaken else overwrite st i t
+
+/-- `try: storage[i] = t  except: pass` — `overwrite` closes its transaction in a `finally` block and writes to
+the backend only after the whole transaction has been encoded, so a store that raises leaves the storage as it was -/
+def setitemTry (st : St) (i : Id) (t : T) : St × List (Id × J) × Bool :=
+  match setitem st i t with
+  | .ok (st', log) => (st', log, true)
+  | .error _ => (st, [], false)
 
 /-- store templates one after the other under their own identifiers (an anonymous root is rejected:
 `storage[None] = t` has no backend key) -/
